@@ -79,6 +79,11 @@ struct CoreEngine : Engine {
     RunResult execute(const Program &p, bool trace) override {
         std::string prop = p.gets("property");
         if (prop != "C03") return execute_once(p, trace, true, false, nullptr);
+        if (getenv("SIM_VARIANT")) {   // debugging aid: run one variant only, with the comparison's configuration
+            sim::Config c = cfg_from(p, trace);
+            c.cost_ns = 0; c.eintr_p = 0; c.timer_late_ns = 0;
+            return execute_once(p, trace, true, !strcmp(getenv("SIM_VARIANT"), "dispatch"), nullptr, &c);
+        }
         // C03: base run plus two differential variants
         Outcome base;
         RunResult rr = execute_once(p, trace, true, false, &base);
